@@ -280,16 +280,42 @@ def invoke(c, op, ver, r_args):
     from kmip.core import enums, objects as cobj
     from kmip.core.factories import attributes as af
     uid = r_args['uid']
+    v = r_args.get('variant', 0)
+    pol = 'pol' if ver < (2, 0) else None   # removed in KMIP 2.0
     if op == 'create':
+        if v == 1:
+            return c.create(enums.CryptographicAlgorithm.BLOWFISH, 128)
+        if v == 2:
+            return c.create(enums.CryptographicAlgorithm.AES, 192,
+                            operation_policy_name=pol, name=u'n\u00e9')
         return c.create(enums.CryptographicAlgorithm.AES, 256,
                         name='n', cryptographic_usage_mask=[
                             enums.CryptographicUsageMask.ENCRYPT])
     if op == 'create_key_pair':
+        if v == 1:
+            return c.create_key_pair(
+                enums.CryptographicAlgorithm.RSA, 1024,
+                operation_policy_name=pol, public_name='pub',
+                public_usage_mask=[enums.CryptographicUsageMask.VERIFY],
+                private_name='priv',
+                private_usage_mask=[enums.CryptographicUsageMask.SIGN])
         return c.create_key_pair(enums.CryptographicAlgorithm.RSA, 2048)
     if op == 'register':
         return c.register(c05.build_pie(r_args['spec']))
     if op == 'rekey':
         return c.rekey(uid=uid, offset=r_args.get('offset'))
+    if op == 'derive_key' and v == 1:
+        return c.derive_key(
+            enums.ObjectType.SECRET_DATA, [uid, 'other-base'],
+            enums.DerivationMethod.PBKDF2,
+            {'cryptographic_parameters': {
+                'hashing_algorithm': enums.HashingAlgorithm.SHA_1},
+             'salt': b'\x8c\x10', 'iteration_count': 4096,
+             'initialization_vector': b'\x01' * 8},
+            cryptographic_length=256,
+            cryptographic_usage_mask=[
+                enums.CryptographicUsageMask.DERIVE_KEY],
+            operation_policy_name=pol, name='derived')
     if op == 'derive_key':
         return c.derive_key(
             enums.ObjectType.SYMMETRIC_KEY, [uid],
@@ -300,10 +326,44 @@ def invoke(c, op, ver, r_args):
             cryptographic_length=128,
             cryptographic_algorithm=enums.CryptographicAlgorithm.AES)
     if op == 'locate':
+        if v == 1:
+            f = af.AttributeFactory()
+            return c.locate(
+                maximum_items=3, offset_items=1 if ver >= (1, 3) else None,
+                attributes=[
+                    f.create_attribute(enums.AttributeType.OBJECT_TYPE,
+                                       enums.ObjectType.SYMMETRIC_KEY),
+                    f.create_attribute(enums.AttributeType.NAME, 'nm'),
+                    f.create_attribute(
+                        enums.AttributeType.CRYPTOGRAPHIC_LENGTH, 128),
+                    f.create_attribute(enums.AttributeType.STATE,
+                                       enums.State.ACTIVE)])
+        if v == 2:
+            return c.locate(storage_status_mask=1,
+                            object_group_member=enums.ObjectGroupMember.
+                            GROUP_MEMBER_FRESH)
         return c.locate(maximum_items=r_args.get('max'))
     if op == 'check':
         return c.check(uid=uid)
     if op == 'get':
+        if v == 1:
+            return c.get(uid, key_wrapping_specification={
+                'wrapping_method': enums.WrappingMethod.ENCRYPT,
+                'encryption_key_information': {
+                    'unique_identifier': '42',
+                    'cryptographic_parameters': {
+                        'block_cipher_mode':
+                        enums.BlockCipherMode.NIST_KEY_WRAP}},
+                'encoding_option': enums.EncodingOption.NO_ENCODING})
+        if v == 2:
+            return c.get(uid, key_wrapping_specification={
+                'wrapping_method': enums.WrappingMethod.MAC_SIGN,
+                'mac_signature_key_information': {
+                    'unique_identifier': '43',
+                    'cryptographic_parameters': {
+                        'hashing_algorithm':
+                        enums.HashingAlgorithm.SHA_512}},
+                'attribute_names': ['Cryptographic Algorithm', 'Name']})
         return c.get(uid)
     if op == 'get_attributes':
         return c.get_attributes(uid, r_args.get('names'))
@@ -319,6 +379,13 @@ def invoke(c, op, ver, r_args):
     cp = {'cryptographic_algorithm': enums.CryptographicAlgorithm.AES,
           'block_cipher_mode': enums.BlockCipherMode.CBC,
           'padding_method': enums.PaddingMethod.PKCS5}
+    if op == 'encrypt' and v == 1:
+        return c.encrypt(b'', uid=uid, cryptographic_parameters={
+            'cryptographic_algorithm': enums.CryptographicAlgorithm.AES,
+            'block_cipher_mode': enums.BlockCipherMode.GCM,
+            'tag_length': 16, 'iv_length': 12, 'random_iv': True})
+    if op == 'encrypt' and v == 2:
+        return c.encrypt(b'\x07' * 33, uid=uid)
     if op == 'encrypt':
         return c.encrypt(b'\x01' * 16, uid=uid, cryptographic_parameters=cp,
                          iv_counter_nonce=b'\x02' * 16)
@@ -507,6 +574,7 @@ def generate(rng, tier, index):
         args['max'] = r.choice([None, 5])
     if op == 'rekey':
         args['offset'] = r.choice([None, 0, 60])
+    args['variant'] = r.choice([0, 0, 1, 2])
     plan = {'op': op, 'ver': list(ver), 'ok': ok, 'args': args,
             'seed': r.randrange(1 << 30)}
     if ok:
